@@ -269,7 +269,7 @@ type execReq struct {
 	Ops      []int    `json:"ops"`
 	Prefix   []int    `json:"prefix"`
 	Conflict []string `json:"conflict"`
-	Seq      bool     `json:"seq"` // run the ops sequentially on one thread (histories / solo)
+	Seq      bool     `json:"seq"`             // run the ops sequentially on one thread (histories / solo)
 	Prior    []int    `json:"prior,omitempty"` // operations run to completion, one after the other, before the scenario starts
 }
 
